@@ -377,7 +377,18 @@ func checkApplyUpdate(c *vs.Case, tr c05Triple) error {
 	if !reflect.DeepEqual(origU.Object, orig0) {
 		return vs.Violf("C05/apply-mutates-observed", "ApplyUpdate mutated the observed object:\nbefore=%s\nafter=%s", js(orig0), js(origU.Object))
 	}
-	if !reflect.DeepEqual(updU.Object, upd0) && !reflect.DeepEqual(updU.Object, updStripped) {
+	// the stripping may or may not leave an empty annotations map behind; both are "own annotation stripped"
+	updStripped2 := vs.CopyMap(updStripped)
+	if ownLA {
+		if a, _ := updStripped2["metadata"].(map[string]any)["annotations"].(map[string]any); len(a) == 0 {
+			delete(updStripped2["metadata"].(map[string]any), "annotations")
+		}
+	}
+	switch {
+	case reflect.DeepEqual(updU.Object, upd0), reflect.DeepEqual(updU.Object, updStripped):
+	case reflect.DeepEqual(updU.Object, updStripped2):
+		updStripped = updStripped2
+	default:
 		return vs.Violf("C05/apply-mutates-desired", "ApplyUpdate mutated desired beyond stripping its own annotation:\nbefore=%s\nafter=%s", js(upd0), js(updU.Object))
 	}
 
